@@ -27,13 +27,19 @@ def _alarm(signum, frame):
 
 
 def with_timeout(fn, seconds):
+    """limit on the CPU time the call may use (a loop that never ends burns CPU; a busy machine does not make a finite
+    construction look like a hang), with a wall-clock backstop ten times as long"""
     old = signal.signal(signal.SIGALRM, _alarm)
-    signal.setitimer(signal.ITIMER_REAL, seconds)
+    oldp = signal.signal(signal.SIGPROF, _alarm)
+    signal.setitimer(signal.ITIMER_PROF, seconds)
+    signal.setitimer(signal.ITIMER_REAL, 10 * seconds)
     try:
         return fn()
     finally:
+        signal.setitimer(signal.ITIMER_PROF, 0)
         signal.setitimer(signal.ITIMER_REAL, 0)
         signal.signal(signal.SIGALRM, old)
+        signal.signal(signal.SIGPROF, oldp)
 
 
 def units(x):
@@ -209,10 +215,32 @@ def oracle_reactor(ctx, rng, n):
         case = gi.random_case(rng, n_core_rings=rng.choice([1, 1, 2]), n_types=rng.choice([1, 2]),
                               length=round(rng.uniform(0.05, 2.0), rng.choice([1, 3, 6])),
                               flow_range=(10 ** rng.uniform(-4, 0), 10.0), with_power=False)
+        if ci % 3 == 1:
+            # clones of one type with the SAME flow rate at different powers in a coolant whose conductivity moves with temperature:
+            # each assembly has its own outlet temperature estimate, hence its own step requirement
+            case = gi.random_case(rng, n_core_rings=2, n_types=1, length=round(rng.uniform(0.1, 0.4), 3), const_props=False,
+                                  flow_range=(0.2, 3.0), with_power=False)
+            case['core']['coolant_material'] = rng.choice(['lead', 'lbe', 'lead', 'sodium'])
+            if case['core']['coolant_material'] != 'sodium':
+                case['core']['coolant_inlet_temp'] = round(rng.uniform(650.0, 750.0), 2)
+            fl = round(rng.uniform(1.0, 6.0), 4)
+            for a in case['assignment']:
+                for k_ in ('outlet_temp', 'delta_temp'):
+                    a.pop(k_, None)
+                a['flowrate'] = fl
         for tn in list(case['types']):
             if rng.random() < 0.4:
                 gi.add_axial_regions(rng, case, tn, lower=rng.random() < 0.7, upper=rng.random() < 0.7)
         gi.random_power(rng, case, per_asm_mesh=rng.random() < 0.5)
+        if ci % 3 == 1:
+            # powers spread over a decade, the hottest assembly not first
+            ids_ = sorted(set(int(row[0]) for row in case['power']['rows']))
+            scale_ = {i_: 10 ** rng.uniform(-1.0, 0.0) for i_ in ids_}
+            scale_[ids_[0]] = 0.1
+            scale_[ids_[-1]] = 1.0
+            for row in case['power']['rows']:
+                for j_ in range(5, len(row)):
+                    row[j_] *= scale_[int(row[0])]
         if rng.random() < 0.5:
             case['setup']['axial_mesh_size'] = rng.choice([0.05, 0.002, 1e-4, round(10 ** rng.uniform(-5, -1), 7)])
         if rng.random() < 0.3:
